@@ -93,7 +93,9 @@ def reserved_classifier(v: BytesLen(0, 255), suffix: Bytes):
                                                        c.value.get_reserved_cfdp_message_type() == v[4], c.value.pack() == tlv(2, v)))
     d = MessageToUserTlv(v)
     o2 = outcome(d.is_reserved_cfdp_message)
-    ensures("total-constructed", both(o2.ok, implies(o2.ok, o2.value == is_reserved_content(v))))
+    ensures("total-constructed", o2.ok)
+    if o2.ok:
+        ensures("true-iff-marker-constructed", o2.value == is_reserved_content(v))
 
 
 # ------------------------------------------------------------------------------------------------ proxy operations
